@@ -795,8 +795,11 @@ class TokenizerCore:
             tokens = len(self.tokens)
             self._scan(check_semicolon=True)
             self.tokens = self.tokens[:tokens]
-            text = self.sql[start : self._current].strip()
+            raw_text = self.sql[start : self._current]
+            text = raw_text.strip()
             if text:
+                # The token spans the command's text rather than the last token scanned inside it
+                self._start = start + len(raw_text) - len(raw_text.lstrip())
                 self._add(TokenType.STRING, text)
 
     def _scan_keywords(self) -> None:
